@@ -132,10 +132,19 @@ fn plant(d: &mut Disk, rng: &mut Rng, referenced: &BTreeMap<[u8; 32], (u32, u64)
                 }
                 1 => {
                     let mut b = (*d.inodes[i].cache).clone();
-                    if b.is_empty() || rng.chance(1, 2) {
+                    if b.is_empty() {
                         b.push(7);
                     } else {
-                        b.pop();
+                        // one byte more, one byte less, cut to half, cut to nothing (what a lost
+                        // write-back leaves behind a durable rename)
+                        match rng.below(4) {
+                            0 => b.push(7),
+                            1 => {
+                                b.pop();
+                            }
+                            2 => b.truncate(b.len() / 2),
+                            _ => b.clear(),
+                        }
                     }
                     d.inodes[i].cache = Arc::new(b);
                     p.resized += 1;
